@@ -21,6 +21,7 @@ RULE = (
     "exercised separately -, stream of 1..10 weighted records, live or JSON-reloaded operand, factors from {0.25,0.5,1,1.5,2,3,8} "
     "and {0,-1,-0.5,NaN}). distinct = digest(spec, stream, factors, reloaded?); non-trivial = the refill comparison and the "
     "continuation (fill/merge/hash/serialise) of the product were evaluated on a non-empty state"
+    ' Every 6th case the operand is reached by a vectorised fill with zero-weight rows (zero-entry categories / sparse bins); accessor invariant on every product.'
 )
 ASSUMPTIONS = [
     "factors and weights are dyadic or small integers so that count-like fields are exact; accumulated fields within tolerance",
